@@ -1050,33 +1050,38 @@ class SymEx:
         heads0 = None
         if is_for and not self.suppress:
             heads = heads0 = [(x_, _literal_rows(self._enum_members(v_))) for x_, v_ in self.ev(s.iter, st)]
-            if len(heads) == 1 and heads[0][0].exc is None and heads[0][1] in (('list', ()), ('tuple', ()), ('dict', ()), ('set', ())):
-                # nothing to iterate: the body never runs
-                return self.block(s.orelse, heads[0][0]) if s.orelse else [(heads[0][0], None)]
-            if len(heads) == 1 and heads[0][0].exc is None and heads[0][1][0] in ('tuple', 'list') and 1 <= len(heads[0][1][1]) <= 8 \
-                    and not any(z[0] == 'starred' for z in heads[0][1][1]):
-                # a loop over a literal table runs its body once per row, in order: unrolled exactly (continue/break/return/raise included)
-                live, done = [heads[0][0]], []
-                for item in heads[0][1][1]:
-                    nxt = []
-                    for s0 in live:
-                        b0 = self.assign(s.target, item, s0, s, silent=True)
-                        for y, oc in self.block(s.body, b0):
-                            if y.exc is not None or (oc is not None and oc[0] == 'return'):
-                                done.append((y, oc))
-                            elif oc is not None and oc[0] == 'break':
-                                done.append((y, ('broke',)))
-                            else:
-                                nxt.append(y)
-                    live = nxt
-                out = []
-                for y in live:
-                    out.extend(self.block(s.orelse, y) if s.orelse else [(y, None)])
-                for y, oc in done:
-                    out.append((y, None if oc == ('broke',) else oc))
-                return out
+            # heads whose iterable is written out (a literal table, an emptied container) are run exactly; the others go through the general summary below
+            pre_out, rest = [], []
+            for h_st, h_it in heads:
+                if h_st.exc is None and h_it in (('list', ()), ('tuple', ()), ('dict', ()), ('set', ())):
+                    # nothing to iterate: the body never runs
+                    pre_out.extend(self.block(s.orelse, h_st) if s.orelse else [(h_st, None)])
+                elif h_st.exc is None and h_it[0] in ('tuple', 'list') and 1 <= len(h_it[1]) <= 8 and not any(z[0] == 'starred' for z in h_it[1]):
+                    # a loop over a literal table runs its body once per row, in order: unrolled exactly (continue/break/return/raise included)
+                    live, done = [h_st], []
+                    for item in h_it[1]:
+                        nxt = []
+                        for s0 in live:
+                            b0 = self.assign(s.target, item, s0, s, silent=True)
+                            for y, oc in self.block(s.body, b0):
+                                if y.exc is not None or (oc is not None and oc[0] == 'return'):
+                                    done.append((y, oc))
+                                elif oc is not None and oc[0] == 'break':
+                                    done.append((y, ('broke',)))
+                                else:
+                                    nxt.append(y)
+                        live = nxt
+                    for y in live:
+                        pre_out.extend(self.block(s.orelse, y) if s.orelse else [(y, None)])
+                    for y, oc in done:
+                        pre_out.append((y, None if oc == ('broke',) else oc))
+                else:
+                    rest.append((h_st, h_it))
+            if not rest:
+                return pre_out
+            heads0 = rest
         lid = next(self.uid)
-        out = []
+        out = list(pre_out) if heads0 is not None else []
         heads = (heads0 if heads0 is not None else self.ev(s.iter, st)) if is_for else [(st, None)]
         for x, it in heads:
             if x.exc is not None:
@@ -2446,6 +2451,21 @@ class SymEx:
                     if not hasattr(n, 'lineno'):
                         ast.copy_location(n, e)
                 return self.ev(g, st)
+        if not self.suppress and e.args and not any(isinstance(a_, ast.Starred) for a_ in e.args) and all(k_.arg for k_ in e.keywords) \
+                and isinstance(e.args[0], ast.Attribute) and self.M.ext_name(fn.mod, f) == 'functools.partial' and not isinstance(getattr(e, '_qs_partial', None), bool):
+            # partial(obj.method, a, k=v) is  lambda _a=a, _k=v: obj.method(_a, k=_k)  - the arguments bound NOW, the method looked up on the object when called;
+            # read that way the call is resolved like any other call of obj.method (extra call-time arguments are not followed)
+            names = ['_pa%d' % i_ for i_ in range(len(e.args) - 1)] + ['_pk_%s' % k_.arg for k_ in e.keywords]
+            lam = ast.Lambda(
+                args=ast.arguments(posonlyargs=[], args=[ast.arg(arg=n_) for n_ in names], vararg=None, kwonlyargs=[], kw_defaults=[], kwarg=None,
+                                   defaults=list(e.args[1:]) + [k_.value for k_ in e.keywords]),
+                body=ast.Call(func=e.args[0], args=[ast.Name(id=n_, ctx=ast.Load()) for n_ in names[:len(e.args) - 1]],
+                              keywords=[ast.keyword(arg=k_.arg, value=ast.Name(id='_pk_%s' % k_.arg, ctx=ast.Load())) for k_ in e.keywords]))
+            for n_ in ast.walk(lam):
+                if not hasattr(n_, 'lineno'):
+                    ast.copy_location(n_, e)
+            ast.copy_location(lam, e)
+            return self.ev(lam, st)
         if isinstance(f, ast.Attribute) and not self.suppress and f.attr in bound_callables(self.M) and not (isinstance(f.value, ast.Name) and f.value.id == 'self'
                                                                                                          and self.fn.cls is not None and self.fn.cls.lookup(f.attr) is not None):
             # obj.D(args) with D a callable bound from obj's own fields (see bound_callables): call what it is bound to
@@ -2713,6 +2733,11 @@ class SymEx:
                 if local:
                     opn = {'append': 'APPENDED', 'add': 'APPENDED', 'update': 'UPDATED', 'extend': 'EXTENDED'}.get(f.attr, 'MUTATED_' + f.attr)
                     x.env[f.value.id] = ('call', ('ext', opn), (recv,) + tuple(args), kws)
+                    if f.attr == 'append' and recv[0] == 'list' and len(args) == 1 and not kws and not any(z_[0] == 'starred' for z_ in recv[1]):
+                        x.env[f.value.id] = ('list', recv[1] + (args[0],))          # a list written out so far, plus one: still a list written out
+                    elif f.attr == 'extend' and recv[0] == 'list' and len(args) == 1 and not kws and args[0][0] in ('list', 'tuple') \
+                            and not any(z_[0] == 'starred' for z_ in recv[1] + args[0][1]):
+                        x.env[f.value.id] = ('list', recv[1] + args[0][1])
             return [(x, res)]
         r = self.ev(f, st)
         fv = r[0][1] if len(r) == 1 else ('havoc', 'callee', site)
